@@ -19,6 +19,8 @@ def one_case(args):
     r0 = rng.random()
     if case == 0:
         kw = dict(target_packets=12000, hbfs=1, n_links=rng.choice([1, 3]))      # scale: one long conforming stream per run (> 100 reader batches, > 4096 packets per link)
+    elif case == 1:
+        kw = dict(n_links=rng.choice([1, 2]), hbfs=2, max_pages=400, max_triggers=600, p_split=0.3, hits="none")     # scale: HBFs of several hundred pages (page counters beyond 255)
     elif r0 < 0.06:
         kw = dict(target_packets=rng.choice([100, 200, 300, 99, 101, 199, 201]), hbfs=1, n_links=rng.choice([1, 2, 4]))
     elif r0 < 0.10:
